@@ -15,7 +15,7 @@ use serde_json::json;
 use std::collections::BTreeMap;
 use std::sync::{Arc, Mutex};
 
-const N_ANSWERS: u32 = 6;
+const N_ANSWERS: u32 = 7;
 
 fn answer(idx: u32, token: u64) -> Result<RV, RErr> {
     match idx {
@@ -24,6 +24,7 @@ fn answer(idx: u32, token: u64) -> Result<RV, RErr> {
         2 => Ok(RV::None),
         3 => Ok(RV::Int(7)),
         4 => Ok(RV::float(f64::NAN)),
+        // 5: the harness's own error; 6: the error a function gets from `param.try_into()?` on none
         _ => Err(RErr::UserFunctionError(String::new(), token)),
     }
 }
@@ -411,6 +412,7 @@ fn make_ruleset(tree: &RE, world: &Arc<Mutex<World>>) -> Result<RuleSet, String>
         g.answers.push(a);
         let r = match answer(a, k) {
             Ok(v) => Ok(v.to_value()),
+            Err(_) if a == 6 => Err(anyhow::Error::new(reval::Error::UnexpectedValueType(Value::None, format!("harness#{k}")))),
             Err(_) => Err(anyhow::Error::new(Injected(k))),
         };
         (r, if g.suspend { 1 } else { 0 })
@@ -562,7 +564,7 @@ fn in_operator_leg(acc: &mut Acc) {
             let mut want: Vec<i128> = Vec::new();
             for (i, a) in answers.iter().enumerate() {
                 want.push(i as i128);
-                if *a == 5 {
+                if *a >= 5 {
                     break;
                 }
             }
@@ -663,7 +665,7 @@ pub fn replay(case: &serde_json::Value) -> i32 {
         return 2;
     }
     println!("expression : {}", shape.tree.unparse().unwrap_or_default());
-    println!("answers    : {a1:?}  (0=true 1=false 2=none 3=i7 4=NaN 5=failure)");
+    println!("answers    : {a1:?}  (0=true 1=false 2=none 3=i7 4=NaN 5=failure 6=failure carrying a reval error about none)");
     println!("calls made : {:?}", l1.iter().map(|(n, a)| format!("{n}({})", a.show())).collect::<Vec<_>>());
     println!("result     : {}", o1.show());
     let mut acc = Acc::new();
